@@ -228,7 +228,7 @@ type histProg struct {
 }
 
 func genHistory(t *tape.Tape, uniq string) histProg {
-	switch t.Pick(3, 1, 3, 3, 1, 2, 2, 2, 1, 2, 1, 3) {
+	switch t.Pick(3, 1, 3, 3, 1, 2, 2, 2, 1, 2, 1, 3, 3) {
 	case 0:
 		return histProg{kind: "fail-at-step", faultAt: 1 + t.Intn(4),
 			src: "hx1 := S(1)\nhx2 := [S(2), hx1]\nhf := {|a| S(3); a}\nhf(S(4))\n\"done\".p\n"}
@@ -260,6 +260,16 @@ func genHistory(t *tape.Tape, uniq string) histProg {
 	case 9:
 		return histProg{kind: "raise-and-defer", faultAt: 1 + t.Intn(2),
 			src: "hd := {|a|\n  defer \"cleanup\".p\n  S(1)\n  raise Err.new(\"hist boom\") if a\n  S(2)\n}\nhd(true)\n"}
+	case 12:
+		// built-in prototypes used as ordinary operands (expansion, unpacking, chains)
+		return histProg{kind: "builtin-as-operand", faultAt: -1,
+			src: []string{
+				"hf := {|| \\_}\nhf(**Obj, **{twice: 1, px: 2}).keys.len.p\nhf(**Int, **Str, **{px: 3}).keys.len.p\n",
+				"{**Int, **{twice: 3}}.keys.len.p\n%{**Obj, **{px: 1}}.len.p\n{px: 1, **Arr}.px.p\n",
+				"Obj.new(Int).p\nInt.bro({twice: 4}).twice.p\nObj.bear(Int).bear({px: 5}).px.p\n",
+				"Int@{|k, v| k}.len.p\nKernel$({}){|acc, kv| {**acc, twice: kv}}.keys.len.p\n[*Int.keys, 'twice].len.p\n",
+				"hg := {|a, px: 0, twice: 0| [px, twice]}\nhg(1, **Str, **{twice: 7}).p\nStr.callProp(Int, 'twice).p\n",
+			}[t.Intn(5)]}
 	case 11:
 		// the same literal texts as some probes, in another context (other values, other positions)
 		return histProg{kind: "same-literal-text", faultAt: -1,
